@@ -85,10 +85,10 @@ def _sized(elem, lo, hi):
 
 def strategy(tier):
     src = st.fixed_dictionaries({
-        'kind': st.sampled_from(['list', 'range', 'iter', 'iter', 'reiterable', 'rawlist', 'rawiter']),
+        'kind': st.sampled_from(['list', 'range', 'iter', 'iter', 'reiterable', 'rawlist', 'rawiter', 'gen', 'gen']),
         'elems': _sized(st.integers(0, len(VALUES) - 1), 0, 7)})
     cond = st.fixed_dictionaries({
-        'kind': st.sampled_from(['pure', 'stateful', 'list', 'iter', 'cycle']),
+        'kind': st.sampled_from(['pure', 'stateful', 'list', 'iter', 'cycle', 'gen']),
         'vals': _sized(st.integers(0, len(CONDV) - 1), 0, 9)})
     word = _sized(st.sampled_from(['T', 'F', 'T', 'F', 'T', 'F', 'T', 'F', 'DT', 'DF', 'AT', 'AF']), 0, 14)
     return st.fixed_dictionaries({'src': src, 'cond': cond, 'word': word,
@@ -97,9 +97,9 @@ def strategy(tier):
 
 def valid(case):
     try:
-        return (case['src']['kind'] in ('list', 'range', 'iter', 'reiterable', 'rawlist', 'rawiter')
+        return (case['src']['kind'] in ('list', 'range', 'iter', 'reiterable', 'rawlist', 'rawiter', 'gen')
                 and all(0 <= i < len(VALUES) for i in case['src']['elems'])
-                and case['cond']['kind'] in ('pure', 'stateful', 'list', 'iter', 'cycle')
+                and case['cond']['kind'] in ('pure', 'stateful', 'list', 'iter', 'cycle', 'gen')
                 and all(0 <= i < len(CONDV) for i in case['cond']['vals'])
                 and all(w in ('T', 'F', 'DT', 'DF', 'AT', 'AF') for w in case['word'])
                 and case['end'] in ('drain', 'stop'))
@@ -143,6 +143,13 @@ def run_case(case):
         source = range(n_src)
     elif sk == 'iter':
         source = LogIter(elems, pulls)
+    elif sk == 'gen':
+        # a generator object: one-shot like 'iter', but it can be closed (and is finalised when dropped)
+        def _gen():
+            for e in elems:
+                pulls.append(e)
+                yield e
+        source = _gen()
     else:
         source = ReIterable(elems, pulls, iters)
 
@@ -180,6 +187,10 @@ def run_case(case):
         n = min(n_src, len(cvals))
     elif ck == 'iter':
         condition = LogIter(cvals, [], tag='cond')
+        model_c = cvals[:n_src]
+        n = min(n_src, len(cvals))
+    elif ck == 'gen':
+        condition = (c for c in list(cvals))
         model_c = cvals[:n_src]
         n = min(n_src, len(cvals))
     else:
@@ -235,7 +246,7 @@ def run_case(case):
             if final and len(pred_log) != n_src:
                 viol.append(V('predicate-log', f'after draining both iterators the predicate was evaluated '
                               f'{len(pred_log)} times for {n_src} elements', 'predicate-count'))
-        if sk in ('iter', 'reiterable', 'rawiter'):
+        if sk in ('iter', 'reiterable', 'rawiter', 'gen'):
             if len(pulls) > n_src or any(a is not b for a, b in zip(pulls, elems)):
                 viol.append(V('source-pulls', f'source delivered {pulls!r}; expected each of {elems!r} at most once, in order'))
             if sk == 'reiterable' and len(iters) > 1:
@@ -278,7 +289,7 @@ def run_case(case):
         classes.append('repeated-equal-elements')
     if nontrivial:
         classes.append('nontrivial')
-    if ck in ('list', 'iter') and len(cvals) != n_src:
+    if ck in ('list', 'iter', 'gen') and len(cvals) != n_src:
         classes.append('length-mismatch')
     if any(w[0] == 'A' for w in case['word']):
         classes.append('abandon')
